@@ -25,7 +25,7 @@ POLL = 'server/enip/poll.py'; DEFAULTS = 'server/enip/defaults.py'; NETWORK = 's
 
 VARIANTS = [
     V( 'replies-bundle-status-not-raised', CLIENT, "msvc_status = request.get( 'status' )\n if msvc_status:\n raise MSVCStatusError( status=msvc_status )", "msvc_status		= request.get( 'status' )", fires=[ 'K-REPLIES' ] ),
-    V( 'replies-first-member-only', CLIENT, "replies = request.multiple.request\n", "replies		= request.multiple.request[:1]\n", fires=[ 'K-REPLIES' ] ),
+    V( 'replies-first-member-only', CLIENT, "replies = request.multiple.request", "replies		= request.multiple.request[:1]", fires=[ 'K-REPLIES' ] ),
     V( 'replies-timeout-as-eof', CLIENT, "if response is None: # None response indicates timeout\n return None", "if response is None: # None response indicates timeout\n        return {}", fires=[ 'K-REPLIES' ] ),
     V( 'replies-connected-item-ignored', CLIENT, "data = item_1.get( 'unconnected_send' ) or item_1.get( 'connection_data' )", "data			= item_1.get( 'unconnected_send' )", fires=[ 'K-REPLIES' ] ),
     V( 'replies-item-order-swapped', CLIENT, "data = item_1.get( 'unconnected_send' ) or item_1.get( 'connection_data' )", "data			= item_1.get( 'connection_data' ) or item_1.get( 'unconnected_send' )", silent=[ 'K-REPLIES' ] ),
